@@ -525,3 +525,6 @@ B("C17", "mode labels through a local", EOFPY, '        comps = self.data["compo
 M("C20", "member model follows the model's centring", BOOT, "                n_modes=n_modes,\n                standardize=False,\n", '                n_modes=n_modes,\n                center=model_params["center"],\n                standardize=False,\n', "MEMBER.config")
 M("C20", "member model standardises the resample", BOOT, "                n_modes=n_modes,\n                standardize=False,\n", "                n_modes=n_modes,\n                standardize=True,\n", "MEMBER.config")
 B("C20", "member model centres explicitly", BOOT, "                n_modes=n_modes,\n                standardize=False,\n", "                n_modes=n_modes,\n                center=True,\n                standardize=False,\n")
+M("C04", "transform rotates with R", ER, '        RinvT = self._compute_rot_mat_inv_trans(R, input_dims=("mode_m", "mode_n"))', "        RinvT = R", "AGREE.rotation")
+M("C04", "cross transform rotates with R", CR, '        RinvT = self._compute_rot_mat_inv_trans(\n            rot_matrix, input_dims=("mode_m", "mode_n")\n        )\n        RinvT = RinvT.rename({"mode_n": "mode"})\n\n        scaling', '        RinvT = rot_matrix\n        RinvT = RinvT.rename({"mode_n": "mode"})\n\n        scaling', "AGREE.rotation")
+M("C03", "whitening inverse labelled like the forward matrix", WH, 'output_core_dims=[[self.feature_name, "mode"], ["mode", self.feature_name]],', 'output_core_dims=[[self.feature_name, "mode"], [self.feature_name, "mode"]],', "MIRROR.whitener.labels")
